@@ -331,7 +331,13 @@ def handleSTL (op : String) (args impl : List String) : Verdict :=
     | some (s, []), some now =>
       let md := metaOf s.metadata
       let cues := s.items.map cueOf
+      -- from 4096 h on, `Duration.Hours()` (a float64 sum) can round the last nanoseconds of an hour up
+      -- (`C16float.stl_hours_sharp`), and cue time + programme start can leave int64: not modelled
+      let tcp : Int := (md.map (·.tcp)).getD 0
+      let far := decide (tcp ≥ 14745600000000000) ||
+        cues.any fun c => decide (c.startAt + tcp ≥ 14745600000000000) || decide (c.endAt + tcp ≥ 14745600000000000)
       let m : Option String :=
+        if far then none else
         match STL.write now md cues with
         | .err => some "err"
         | .unmodelled => none
